@@ -36,6 +36,8 @@ ASSUMPTIONS = [
 REQUIRED_STATS = ['resumes_checked', 'step_end_checks', 'bool_checks', 'real_waits']
 
 GRID = [0.5, 1, 1.5, 2, 2.5, 3, 4]
+# decimal dates among which  n + (d - n) != d  for 8 of the 15 pairs n < d of the first six
+DEC = [0.7, 0.8, 1.2, 2.9, 3.4, 3.9, 4.8]
 
 
 def n_cases(tier):
@@ -67,7 +69,7 @@ def gen_atom(rng, tasks):
             return {'k': 'flag', 'f': 0, 'neg': False}
         return {'k': 'done', 'task': rng.choice(tasks), 'neg': rng.random() < 0.3}
     if kind in ('ge', 'lt', 'eq'):
-        return {'k': kind, 't': rng.choice([0, 0.5, 1, 1.5, 2, 2.5, 3, 4, 6])}
+        return {'k': kind, 't': rng.choice(DEC if rng.scale != 1 else [0, 0.5, 1, 1.5, 2, 2.5, 3, 4, 6])}
     if kind == 'levels':
         if rng.random() < 0.4:
             value = {'a': rng.randint(0, 4)}
@@ -117,6 +119,9 @@ class Ids:
 
 def build(case):
     rng = random.Random('%s/%s/c08' % (case['seed'], case['index']))
+    # a quarter of the programs live on an inexact time grid (DEC), chosen so that for many of
+    # its pairs  now + (date - now)  is not the date
+    rng.scale = 0 if case['index'] % 4 == 3 else 1
     ids = Ids()
     objects = {'flags': 3, 'tracked': [0, 1, {'set': [1]}, 1.0],
                'resources': [{'kind': 'resources', 'levels': {'a': 2, 'b': 1}}]}
@@ -125,7 +130,8 @@ def build(case):
     roots = []
     if tasks:
         children = [{'name': name, 'volatile': False, 'steps': [
-            {'op': 'wait', 'n': {'k': 'delay', 'd': rng.choice(GRID)}, 'id': ids('h')}]}
+            {'op': 'wait', 'n': {'k': 'delay', 'd': rng.choice(GRID if rng.scale == 1 else DEC)},
+             'id': ids('h')}]}
             for name in tasks]
         roots.append({'name': 'helpers', 'steps': [
             {'op': 'scope', 'id': ids('hs'), 'n': None, 'catch': False, 'children': children,
@@ -142,8 +148,12 @@ def build(case):
 def gen_driver(rng, ids):
     driver = []
     when = 0
-    for _ in range(rng.randint(1, 5)):
+    rounds = rng.randint(1, 5)
+    dec_times = sorted(rng.sample(DEC, rounds))
+    for number in range(rounds):
         when += rng.choice([0.5, 0.5, 1, 1.5])
+        if rng.scale != 1:
+            when = dec_times[number]
         driver.append({'op': 'wait', 'n': {'k': 'ge', 't': when}, 'id': ids('d')})
         for _ in range(rng.choice([1, 1, 2, 3, 4])):
             roll = rng.random()
@@ -184,6 +194,8 @@ def finish_build(rng, ids, objects, tasks, roots):
                 spec['share'] = 'x%d' % number      # several waiters on the very same object
             steps = []
             arrive = rng.choice([0, 0, 0.5, 1, 1.5, 2, 3])
+            if rng.scale != 1:
+                arrive = rng.choice([0, 0.7, 0.7, 0.8, 0.8, 1.2, 1.2, 2.9])
             steps.append({'op': 'wait', 'n': {'k': 'ge', 't': arrive} if arrive
                           else {'k': 'instant'}, 'id': ids('a')})
             steps.append({'op': 'wait', 'n': spec, 'id': ids('w'), 'judge': True})
@@ -195,7 +207,8 @@ def finish_build(rng, ids, objects, tasks, roots):
     if tasks:
         # helper tasks must exist before anyone builds `task.done` atoms
         roots.sort(key=lambda root: root['name'] != 'helpers')
-    return {'objects': objects, 'roots': roots, 'start': 0, 'till': None}, exprs
+    return {'objects': objects, 'roots': roots, 'start': 0,
+            'till': None}, exprs
 
 
 class ConditionMonitor:
